@@ -20,7 +20,9 @@ import time
 
 VERIF = os.path.dirname(os.path.dirname(os.path.abspath(__file__)))
 REPO = os.environ.get("VERIF_REPO", "/repo")
-BUILD = os.path.join(VERIF, "build")
+BUILD = os.environ.get("VERIF_BUILD") or os.path.join(VERIF, "build")
+# evidence/ and replays/ go here (a scratch directory when a seeded change is tried on a copy of /repo)
+OUTDIR = os.environ.get("VERIF_OUTDIR") or VERIF
 GO = os.environ.get("VERIF_GO", "go1.26.8")
 NCPU = os.cpu_count() or 4
 
@@ -449,20 +451,20 @@ def load_known():
 
 
 def write_evidence(prop, tier, seed, meta, cov, wall, violations, extra_assumptions=()):
-    os.makedirs(os.path.join(VERIF, "evidence"), exist_ok=True)
+    os.makedirs(os.path.join(OUTDIR, "evidence"), exist_ok=True)
     ev = {
         "property_id": prop, "tier": tier, "seed": seed, "level": meta.get("level", "exploration"),
         "coverage": cov, "assumptions": list(meta.get("assumptions") or []) + list(extra_assumptions),
         "wall_s": round(wall, 2), "violations": violations,
     }
-    p = os.path.join(VERIF, "evidence", prop + ".json")
+    p = os.path.join(OUTDIR, "evidence", prop + ".json")
     json.dump(ev, open(p + ".tmp", "w"), indent=1)
     os.replace(p + ".tmp", p)
     if tier == "thorough":
         # the quick tier rewrites evidence/<id>.json on every change; the last thorough result is kept too
-        os.makedirs(os.path.join(VERIF, "evidence", "thorough"), exist_ok=True)
+        os.makedirs(os.path.join(OUTDIR, "evidence", "thorough"), exist_ok=True)
         ev["coverage"] = dict(cov, samples=cov.get("samples", [])[:1])
-        json.dump(ev, open(os.path.join(VERIF, "evidence", "thorough", "%s.seed%s.json" % (prop, seed)), "w"), indent=1)
+        json.dump(ev, open(os.path.join(OUTDIR, "evidence", "thorough", "%s.seed%s.json" % (prop, seed)), "w"), indent=1)
 
 
 def cmd_check(prop, tier, runs=None, workers=None):
@@ -540,7 +542,7 @@ def cmd_check(prop, tier, runs=None, workers=None):
     exit_code = 0
     report_lines = []
     viol_files = []
-    os.makedirs(os.path.join(VERIF, "replays"), exist_ok=True)
+    os.makedirs(os.path.join(OUTDIR, "replays"), exist_ok=True)
     for cls, rows in sorted(new.items()):
         row = rows[0]
         case_obj = row.get("case")
@@ -575,7 +577,7 @@ def cmd_check(prop, tier, runs=None, workers=None):
                     replay["history"] = rr.get("log")
                     replay["detail"] = rr.get("detail", replay["detail"])
                     replay["shrink_replays"] = tries
-        fn = os.path.join(VERIF, "replays", "%s-%s.json" % (prop, hashlib.sha1(cls.encode()).hexdigest()[:10]))
+        fn = os.path.join(OUTDIR, "replays", "%s-%s.json" % (prop, hashlib.sha1(cls.encode()).hexdigest()[:10]))
         json.dump(replay, open(fn, "w"), indent=1)
         viol_files.append(fn)
         report_lines.append("VIOLATION property=%s replay=%s" % (prop, fn))
